@@ -271,15 +271,15 @@ func c26IsArith(op ItemType) bool {
 	return false
 }
 
-// c26Precondition names the first known-defect precondition that the accepted AST e satisfies
-// ("" when none). A round-trip failure of an expression with such a precondition is reported
-// under "<precondition>:<kind of failure>"; every other failure keeps its detailed signature.
+// c26Precondition computes which known-defect preconditions the accepted AST e satisfies. A
+// round-trip failure is reported under "<precondition>:<kind of failure>" only when c26Pick finds
+// a satisfied precondition that matches the place of the failure; every other failure keeps its
+// detailed signature.
 // The preconditions are properties of the parser's OUTPUT for the input, they do not mention
 // concrete inputs:
 //
 //	nan-duration                        a range/step/offset field holds the int64 conversion of NaN (MinInt64)
-//	duration-expr-gate-hole             a DurationExpr node although ExperimentalDurationExpr is off (first choice when the
-//	                                    printed form is rejected, last choice otherwise)
+//	duration-expr-gate-hole             a DurationExpr node although ExperimentalDurationExpr is off
 //	offset-duration-expr-extent         an offset whose duration expression is (a chain of unary signs over) an unparenthesised
 //	                                    binary expression, or a selector with an offset duration expression that is a
 //	                                    direct operand of an arithmetic binary operator (how far the duration
@@ -289,7 +289,7 @@ func c26IsArith(op ItemType) bool {
 //	duration-literal-float-truncation   a duration literal whose seconds*1e9 is below the exact nanosecond count
 //	duration-not-ms-representable       a range/step/offset with a sub-millisecond part or rounded to 0ns, a duration literal -0,
 //	                                    or one whose float nanosecond count is no whole number of ms or overflows int64
-func c26Precondition(e Expr, opts Options, rejected bool) string {
+func c26Precondition(e Expr, opts Options) (p c26Pre) {
 	var nanDur, gateHole, extent, uplus, inf, trunc, subms bool
 	dur := func(d int64) {
 		if d == math.MinInt64 {
@@ -374,25 +374,47 @@ func c26Precondition(e Expr, opts Options, rejected bool) string {
 			}
 		}
 	})
+	return c26Pre{nanDur, gateHole, extent, uplus, inf, trunc, subms}
+}
+
+type c26Pre struct{ nanDur, gateHole, extent, uplus, inf, trunc, subms bool }
+
+// c26Pick chooses the known-defect class of a round-trip failure from WHERE the failure shows
+// (kind: the failing step; detail: first differing field / node kinds, or the class of the error
+// that rejected the printed form) among the preconditions the expression satisfies. "" = none:
+// the failure keeps its detailed signature and is a new violation.
+func c26Pick(kind, detail string, p c26Pre) string {
+	first := func(cands ...string) string {
+		have := map[string]bool{"nan-duration": p.nanDur, "duration-expr-gate-hole": p.gateHole, "offset-duration-expr-extent": p.extent,
+			"duration-expr-unary-plus": p.uplus, "inf-literal": p.inf, "duration-literal-float-truncation": p.trunc, "duration-not-ms-representable": p.subms}
+		for _, c := range cands {
+			if have[c] {
+				return c
+			}
+		}
+		return ""
+	}
+	if strings.HasSuffix(kind, "-form-rejected") {
+		switch {
+		case strings.Contains(detail, "experimental duration expression"):
+			return first("duration-expr-gate-hole")
+		case strings.Contains(detail, "duration must be greater"):
+			return first("duration-not-ms-representable", "nan-duration")
+		}
+		// any other rejection: the text after "offset" was re-read with a different extent
+		return first("offset-duration-expr-extent", "nan-duration")
+	}
 	switch {
-	case nanDur:
-		return "nan-duration"
-	case gateHole && rejected:
-		return "duration-expr-gate-hole"
-	case extent && rejected: // a truncated literal alone never makes the printed form unparsable
-		return "offset-duration-expr-extent"
-	case trunc:
-		return "duration-literal-float-truncation"
-	case subms:
-		return "duration-not-ms-representable"
-	case extent:
-		return "offset-duration-expr-extent"
-	case uplus:
-		return "duration-expr-unary-plus"
-	case inf:
-		return "inf-literal"
-	case gateHole:
-		return "duration-expr-gate-hole"
+	case detail == "NumberLiteral.Val":
+		return first("duration-literal-float-truncation", "duration-not-ms-representable")
+	case strings.HasSuffix(detail, ".OriginalOffset"), strings.HasSuffix(detail, ".Range"), strings.HasSuffix(detail, ".Step"):
+		return first("nan-duration", "duration-not-ms-representable")
+	case strings.HasPrefix(detail, "node-kind:") && strings.Contains(detail, "UnaryExpr"):
+		return first("inf-literal", "offset-duration-expr-extent")
+	case strings.HasPrefix(detail, "node-kind:"):
+		return first("offset-duration-expr-extent", "duration-expr-unary-plus")
+	case strings.HasPrefix(detail, "DurationExpr."):
+		return first("duration-expr-unary-plus", "offset-duration-expr-extent")
 	}
 	return ""
 }
@@ -477,12 +499,14 @@ func c26Check(env *c26Env, in string, doRT, doPretty bool) (res c26Result) {
 	var e0 Expr
 	res = c26CheckRaw(env, in, doRT, doPretty, &e0)
 	if res.fail != nil && res.accepted && e0 != nil {
-		kind, _, _ := strings.Cut(res.fail.sig, "@")
-		kind, _, _ = strings.Cut(kind, ":")
+		kind, detail, _ := strings.Cut(res.fail.sig, "@")
+		if k, d, ok := strings.Cut(kind, ":"); ok {
+			kind, detail = k, d
+		}
 		switch kind {
-		case "reparse-ast-differs", "printed-form-rejected", "reprint-differs", "pretty-ast-differs", "pretty-form-rejected":
+		case "reparse-ast-differs", "printed-form-rejected", "pretty-ast-differs", "pretty-form-rejected":
 			var pre string
-			if p, _ := vx.Guard(func() { pre = c26Precondition(e0, env.opts, strings.HasSuffix(kind, "-form-rejected")) }); p == nil && pre != "" {
+			if p, _ := vx.Guard(func() { pre = c26Pick(kind, detail, c26Precondition(e0, env.opts)) }); p == nil && pre != "" {
 				res.fail.sig = pre + ":" + kind
 			}
 		}
@@ -613,6 +637,9 @@ func c26Lex(s string) []string {
 	})
 	return out
 }
+
+// option sets in evaluation order: none, all, then the mixed ones
+var c26FlagOrder = []int{0, 15, 1, 2, 3, 4, 5, 6, 7, 8, 9, 10, 11, 12, 13, 14}
 
 type c26Replay struct {
 	Input string `json:"input"`
@@ -763,6 +790,9 @@ func TestVerifC26(t *testing.T) {
 	}
 	r.Set("inputs_per_layer", perLayer)
 
+	// Quick tier: an input with the same verdict (accepted / rejected) under no optional feature and
+	// under all of them is not re-run under the 14 mixed option sets; thorough runs all 16 always.
+	quickSkip := r.Quick()
 	var evals, accepted, rejected, flagSensitive, rts, pretties atomic.Int64
 	printed := &c26StrSet{}
 
@@ -771,8 +801,13 @@ func TestVerifC26(t *testing.T) {
 	phase1 := func(in string, layer uint8, k int64, phase string, collect bool) {
 		var acc [16]bool
 		nacc := 0
-		for f := 0; f < 16; f++ {
+		var a0, a15 bool
+		for fi, f := range c26FlagOrder {
+			if fi == 2 && quickSkip && a0 == a15 {
+				break // quick tier: same verdict without and with all features, see the rule text
+			}
 			res := c26Check(envs[f], in, true, true)
+			a0, a15 = a0 || (f == 0 && res.accepted), a15 || (f == 15 && res.accepted)
 			evals.Add(1)
 			r.Distinct("distinct_outcomes", res.outcome)
 			if res.fail != nil {
@@ -800,12 +835,12 @@ func TestVerifC26(t *testing.T) {
 				rejected.Add(1)
 			}
 		}
-		if nacc != 0 && nacc != 16 {
+		if a0 != a15 {
 			flagSensitive.Add(1)
 		}
 		r.SampleAt(k, func() any {
 			e, err := envs[15].parse(in)
-			s := map[string]any{"input": in, "accepted_under_option_sets": nacc}
+			s := map[string]any{"input": in, "accepted_under_evaluated_option_sets": nacc}
 			if err == nil {
 				s["printed"] = e.String()
 				s["prettified"] = Prettify(e)
@@ -831,11 +866,16 @@ func TestVerifC26(t *testing.T) {
 		maxCharactersPerLine = w
 		var done atomic.Int64
 		r.ParallelN(int64(len(cases)), func(i int64) {
-			for f := 0; f < 16; f++ {
+			var a0, a15 bool
+			for fi, f := range c26FlagOrder {
+				if fi == 2 && quickSkip && a0 == a15 {
+					break // quick tier: same verdict without and with all features, see the rule text
+				}
 				if failed1[i]&(1<<f) != 0 {
 					continue // String round trip already fails; Prettify is built on String
 				}
 				res := c26Check(envs[f], cases[i], false, true)
+				a0, a15 = a0 || (f == 0 && res.accepted), a15 || (f == 15 && res.accepted)
 				evals.Add(1)
 				if res.fail != nil {
 					report(res.fail, cases[i], f, w, "prettify-width")
@@ -880,8 +920,13 @@ func TestVerifC26(t *testing.T) {
 				}
 				in := strings.Join(parts, sep)
 				tokStrings.Add(1)
-				for f := 0; f < 16; f++ {
+				var a0, a15 bool
+				for fi, f := range c26FlagOrder {
+					if fi == 2 && quickSkip && a0 == a15 {
+						break // quick tier: same verdict without and with all features, see the rule text
+					}
 					res := c26Check(envs[f], in, true, true)
+					a0, a15 = a0 || (f == 0 && res.accepted), a15 || (f == 15 && res.accepted)
 					evals.Add(1)
 					if res.fail != nil {
 						report(res.fail, in, f, defaultWidth, "token-strings")
@@ -912,8 +957,6 @@ func TestVerifC26(t *testing.T) {
 
 	// ---- phase 4: every single-token deletion / duplication of every printed form
 	maxLayer := vx.Pick(r, uint8(2), uint8(9))
-	mutFlags := vx.Pick(r, []int{0, 15, 5, 10}, []int{0, 1, 2, 3, 4, 5, 6, 7, 8, 9, 10, 11, 12, 13, 14, 15})
-	r.Set("token_mutation_option_sets", mutFlags)
 	forms := printed.sorted(maxLayer)
 	r.Set("printed_forms_mutated", len(forms))
 	var muts, mutAccepted atomic.Int64
@@ -928,8 +971,13 @@ func TestVerifC26(t *testing.T) {
 			}
 			for _, in := range ms {
 				muts.Add(1)
-				for _, f := range mutFlags {
+				var a0, a15 bool
+				for fi, f := range c26FlagOrder {
+					if fi == 2 && quickSkip && a0 == a15 {
+						break // quick tier: same verdict without and with all features, see the rule text
+					}
 					res := c26Check(envs[f], in, true, true)
+					a0, a15 = a0 || (f == 0 && res.accepted), a15 || (f == 15 && res.accepted)
 					evals.Add(1)
 					if res.fail != nil {
 						report(res.fail, in, f, defaultWidth, "token-mutation")
@@ -967,10 +1015,13 @@ func TestVerifC26(t *testing.T) {
 	r.Set("rule", "one evaluation = one input text under one of the 16 parser option sets (experimental functions x duration expressions x extended range selectors x binop fill modifiers). "+
 		"Inputs: (1) the typed text generator of c26_gen_test.go (layers L0 leaves, L1 every node kind with its full parameter alphabet over core leaves and every leaf in every child position of a default template, "+
 		"LP all two-operator precedence/unary-minus trees, L2 every node kind over one L1 representative per node kind and precedence class, thorough: L3 over L2 representatives); "+
-		"(2) every string of 1..3 tokens over the 56-token structural alphabet (thorough: also every 4-token string over its first 40 tokens), joined with and without spaces; (3) every single-token deletion and duplication of every printed form (quick: forms of L0, L1, LP under the option sets none/all/0101/1010; thorough: all forms, all 16 sets). "+
+		"(2) every string of 1..3 tokens over the 56-token structural alphabet (thorough: also every 4-token string over its first 40 tokens), joined with and without spaces; (3) every single-token deletion and duplication of every printed form (quick: forms of L0, L1, LP; thorough: all forms). Quick tier only: an input with the same verdict under no feature and under all features is not re-run under the 14 mixed option sets. "+
 		"Every accepted input is printed, re-parsed, compared field by field (positions ignored) and re-printed, and prettified at each width and re-parsed; every rejected input must carry ParseErrors. "+
 		"distinct_nontrivial = distinct accepted ASTs (by full field dump) with at least two nodes; distinct_outcomes = root node types of accepted inputs and normalised first error messages of rejected ones.")
 	r.Assume("structural equality ignores position ranges, identifies nil with empty slices, compares the label matchers of one selector as a multiset and identifies all NaN payloads")
+	if quickSkip {
+		r.Assume("quick tier: optional features only ever turn a rejection into an acceptance, so an input accepted without any feature or rejected with all features behaves the same under the mixed option sets (the thorough tier does not assume this)")
+	}
 	r.Assume("inputs are produced by the harness' own renderer / token enumeration; ASTs that only hand construction (not the parser) can produce are outside the quantifier")
 
 	if r.Replay == "" && r.Violations() == 0 {
